@@ -100,7 +100,7 @@ pub fn run(ctx: &Ctx) {
             ctx.fail(&id, "a predicate within the documented limits (1000 nodes, 1000 edges) encodes to the documented layout; beyond them encoding fails", format!("{n} nodes {e} edges: encoded={} expected encodable={want}", got.is_some()));
         }
     }
-    // the decoder has no size limit of its own: node / edge tables up to the u16 counts decode to exactly what the bytes denote, and the same bytes cut short are rejected
+    // node / edge tables up to the u16 counts: no panic; if decoded at all then to exactly what the bytes denote, and the same bytes cut short are rejected
     for (n, e) in [(1001usize, 3usize), (1927, 2), (1928, 2), (1929, 0), (2000, 5), (3855, 1), (3856, 1), (7710, 7), (65535, 0), (0, 65535), (65535, 65535), (32768, 32769)] {
         let id = format!("codec/predicate-big/{n}/{e}");
         if !ctx.want(&id) {
@@ -115,7 +115,9 @@ pub fn run(ctx: &Ctx) {
         match r {
             Err(_) => ctx.fail(&id, "decoders are total on untrusted bytes", format!("PANIC: decode_predicate on a well-formed encoding of {n} nodes and {e} edges ({} bytes)", enc.len())),
             Ok((dec, short_ok, short2_ok)) => {
-                if dec.as_ref() != Some(&p) {
+                // beyond the documented limits (1000 nodes / edges) nothing can have been encoded: rejecting is as good as decoding, a wrong decode is not
+                let beyond = n > 1000 || e > 1000;
+                if dec.as_ref() != Some(&p) && !(beyond && dec.is_none()) {
                     ctx.fail(&id, "decode_predicate yields exactly the nodes and edges the bytes denote", format!("{n} nodes {e} edges ({} bytes): decoded {:?}", enc.len(), dec.map(|d| (d.nodes.len(), d.edges.len()))));
                 } else if (short_ok && e > 0) || short2_ok {
                     ctx.fail(&id, "a truncated predicate encoding is rejected", format!("{n} nodes {e} edges: a truncated encoding was accepted"));
